@@ -1,3 +1,175 @@
-import GambitV.Model.SigFile
+import GambitV.Lemmas.SigFile
+import GambitV.Props.C20
+
+/-!
+# C12 — a signature file reads back as exactly what was written; foreign files are refused
+
+`Model/SigFile.lean` follows `gambit/sigs/hdf5.py`.  `HDF5Signatures.create` stores the k-mer
+parameters, the metadata attributes (`h5py.Empty` for `None`), the ids, and the signatures as one
+concatenated `values` dataset with cumulative `bounds` — either by storing a `SignatureArray`'s
+arrays as they are (`fast = true`) or by writing each signature into its slice of a zero-filled
+dataset.  `HDF5Signatures.__init__` reads them back; `load_signatures_hdf5` refuses anything that
+is not an HDF5 file carrying the format marker.
+
+Helper lemmas live in `Lemmas/SigFile.lean`; the decoding of the concatenated representation is
+C20's (`ofList_toList`).  Core Lean only.
+-/
 namespace GambitV.C12
+open GambitV
+
+/-! ### 1–2. What the two write paths store -/
+
+/-- 1. `np.cumsum` bounds are the bounds of the concatenated representation. -/
+theorem cumBounds_eq (sigs : List (List Nat)) : cumBounds sigs = (Concat.ofList sigs).bounds :=
+  cumBounds_eq_ofList sigs
+
+/-- 1b. Closed form: bound `i` is the total length of the first `i` signatures. -/
+theorem cumBounds_getD (sigs : List (List Nat)) (i : Nat) (h : i ≤ sigs.length) :
+    (cumBounds sigs).getD i 0 = (sigs.take i).flatten.length :=
+  GambitV.cumBounds_getD sigs i h
+
+/-- 2. Writing each signature into its slice of the zero-filled dataset yields the concatenation
+(empty signatures included: they write an empty slice). -/
+theorem writeSlices_eq (sigs : List (List Nat)) : writeSlices sigs = sigs.flatten := by
+  rw [writeSlices_eq_foldl, writeSlices_prefix sigs _ sigs.length (Nat.le_refl _),
+    List.take_length, cumBounds_getLastD, Nat.sub_self]
+  simp
+
+/-! ### 3. The two write paths agree -/
+
+/-- 3. The whole-array path and the per-signature path store the same file contents. -/
+theorem write_paths_agree (c : SigCollection) : writeSigs true c = writeSigs false c := by
+  unfold writeSigs
+  simp only [if_true, Bool.false_eq_true, if_false, writeSlices_eq, cumBounds_eq]
+  rfl
+
+/-! ### 4. Round trip -/
+
+/-- 5. Splitting the concatenation at the cumulative bounds recovers the signatures. -/
+theorem split_concat (sigs : List (List Nat)) :
+    ({ values := sigs.flatten, bounds := cumBounds sigs } : Concat).toList = sigs := by
+  rw [cumBounds_eq]
+  exact C20.ofList_toList sigs
+
+/-- 4. Reading back what `create` wrote gives the collection that was written: `k`, prefix, ids,
+every metadata field (absent ones stay absent), the dtype, and every signature — through either
+write path. -/
+theorem read_write (fast : Bool) (c : SigCollection) : readSigs (writeSigs fast c) = .loaded c := by
+  have h : readSigs (writeSigs true c) = .loaded c := by
+    unfold readSigs writeSigs
+    simp only [if_true, ne_eq, not_true_eq_false, if_false]
+    have : ({ values := (Concat.ofList c.sigs).values, bounds := (Concat.ofList c.sigs).bounds } : Concat).toList
+        = c.sigs := C20.ofList_toList c.sigs
+    rw [this]
+  cases fast
+  · rw [← write_paths_agree]; exact h
+  · exact h
+
+/-- 4b. Field by field: what is stored. -/
+theorem writeSigs_fields (fast : Bool) (c : SigCollection) :
+    (writeSigs fast c).marker = some 1 ∧ (writeSigs fast c).k = c.k ∧ (writeSigs fast c).pre = c.pre ∧
+      (writeSigs fast c).metaAttrs = c.metaAttrs ∧ (writeSigs fast c).ids = c.ids ∧
+      (writeSigs fast c).values = c.sigs.flatten ∧ (writeSigs fast c).bounds = cumBounds c.sigs ∧
+      (writeSigs fast c).dtypeBytes = c.dtypeBytes := by
+  cases fast
+  · exact ⟨rfl, rfl, rfl, rfl, rfl, writeSlices_eq c.sigs, rfl, rfl⟩
+  · exact ⟨rfl, rfl, rfl, rfl, rfl, rfl, rfl, rfl⟩
+
+/-- 4c. Signature `i` read from the stored datasets is signature `i` of the collection. -/
+theorem stored_get (fast : Bool) (c : SigCollection) (i : Nat) (h : i < c.sigs.length) :
+    ({ values := (writeSigs fast c).values, bounds := (writeSigs fast c).bounds } : Concat).get i =
+      c.sigs[i] := by
+  obtain ⟨_, _, _, _, _, hv, hb, _⟩ := writeSigs_fields fast c
+  rw [hv, hb, cumBounds_eq]
+  exact C20.ofList_get c.sigs i h
+
+/-- 4d. Writing is injective: different collections give different files. -/
+theorem writeSigs_injective (fast : Bool) (c₁ c₂ : SigCollection)
+    (h : writeSigs fast c₁ = writeSigs fast c₂) : c₁ = c₂ := by
+  have h1 := read_write fast c₁
+  rw [h, read_write fast c₂] at h1
+  injection h1 with h1
+  exact h1.symm
+
+/-! ### 6. Foreign files -/
+
+/-- 6a. A file without the HDF5 magic number is refused with the dedicated error. -/
+theorem foreign_refused_notHdf5 : loadFile .notHdf5 = .sigFileError := rfl
+
+/-- 6b. An HDF5 file without the format marker is refused with the dedicated error. -/
+theorem foreign_refused_unmarked (root : SigStore) (h : root.marker = none) :
+    loadFile (.hdf5 root) = .sigFileError := by
+  simp only [loadFile, readSigs, h]
+
+/-- 6. Both together. -/
+theorem foreign_refused :
+    loadFile .notHdf5 = .sigFileError ∧
+      ∀ root : SigStore, root.marker = none → loadFile (.hdf5 root) = .sigFileError :=
+  ⟨foreign_refused_notHdf5, foreign_refused_unmarked⟩
+
+/-- 6c. Only an HDF5 file carrying format marker 1 loads. -/
+theorem load_only_marked (img : FileImage) (c : SigCollection) (h : loadFile img = .loaded c) :
+    ∃ root, img = .hdf5 root ∧ root.marker = some 1 := by
+  cases img with
+  | notHdf5 => cases h
+  | unopenable => cases h
+  | hdf5 root =>
+    refine ⟨root, rfl, ?_⟩
+    simp only [loadFile, readSigs] at h
+    cases hm : root.marker with
+    | none => rw [hm] at h; cases h
+    | some v =>
+      rw [hm] at h
+      by_cases hv : v = 1
+      · rw [hv]
+      · simp only [ne_eq, hv, not_false_eq_true, if_true] at h
+        cases h
+
+/-- 6d. What loads is determined by the stored datasets. -/
+theorem loaded_eq (root : SigStore) (c : SigCollection) (h : loadFile (.hdf5 root) = .loaded c) :
+    c.k = root.k ∧ c.pre = root.pre ∧ c.metaAttrs = root.metaAttrs ∧ c.ids = root.ids ∧
+      c.dtypeBytes = root.dtypeBytes ∧
+      c.sigs = ({ values := root.values, bounds := root.bounds } : Concat).toList := by
+  obtain ⟨r, hr, hm⟩ := load_only_marked _ c h
+  injection hr with hr
+  subst hr
+  simp only [loadFile, readSigs, hm, ne_eq, not_true_eq_false, if_false] at h
+  injection h with h
+  subst h
+  exact ⟨rfl, rfl, rfl, rfl, rfl, rfl⟩
+
+/-- 6e. An unknown format version is an error, but not the dedicated one. -/
+theorem unknown_version (root : SigStore) (v : Nat) (hm : root.marker = some v) (hv : v ≠ 1) :
+    loadFile (.hdf5 root) = .otherError := by
+  simp only [loadFile, readSigs, hm, ne_eq, hv, not_false_eq_true, if_true]
+
+/-! ### 7. Non-vacuity -/
+
+section Examples
+
+/-- three signatures, the middle one empty; `name`, `version`, `description` absent -/
+private def c3 : SigCollection :=
+  { k := 11, pre := [0, 3, 2], metaAttrs := [some "id", none, some "key", none, none, some "{}"],
+    ids := ["a", "b", "c"], sigs := [[3, 9, 20], [], [7, 8]], dtypeBytes := 8 }
+
+example : cumBounds c3.sigs = [0, 3, 3, 5] := by decide
+example : writeSlices c3.sigs = [3, 9, 20, 7, 8] := by decide
+example : (writeSigs true c3).values = [3, 9, 20, 7, 8] ∧ (writeSigs true c3).bounds = [0, 3, 3, 5] := by
+  decide
+example : (writeSigs false c3).values = [3, 9, 20, 7, 8] ∧ (writeSigs false c3).bounds = [0, 3, 3, 5] := by
+  decide
+example : readSigs (writeSigs true c3) = .loaded c3 := by decide
+example : readSigs (writeSigs false c3) = .loaded c3 := by decide
+example : loadFile (.hdf5 (writeSigs false c3)) = .loaded c3 := by decide
+-- leading and trailing empty signatures, and no signatures at all
+example : writeSlices [[], [4], []] = [4] ∧ cumBounds [[], [4], []] = [0, 0, 1, 1] := by decide
+example : ({ values := [4], bounds := [0, 0, 1, 1] } : Concat).toList = [[], [4], []] := by decide
+example : writeSlices [] = [] ∧ cumBounds [] = [0] := by decide
+-- a marked file of another version, an unmarked HDF5 file, a non-HDF5 file
+example : loadFile (.hdf5 { writeSigs true c3 with marker := some 2 }) = .otherError := by decide
+example : loadFile (.hdf5 { writeSigs true c3 with marker := none }) = .sigFileError := by decide
+example : loadFile .notHdf5 = .sigFileError := by decide
+
+end Examples
+
 end GambitV.C12
